@@ -255,16 +255,14 @@ def step (op : String) : P String := do
     let x ← pAStr; let n ← pInt
     pure (okA (x.expandtabs n (nidOf [x])))
   | "fmatch" => do
-    -- format_matching: spans supplied by the harness (re.finditer), count already applied
-    let x ← pAStr; let a ← pSArg; let n ← pNat
+    -- format_matching: spans supplied by the harness (re.finditer); count applied by the model
+    let x ← pAStr; let a ← pSArg; let count ← pInt; let n ← pNat
     let spans ← pMany n (do let s ← pInt; let e ← pInt; pure (s, e))
-    let r := spans.foldlM (fun (acc : AStr) (se : Int × Int) => acc.applyRaw (nidOf [acc]) a (some se.1) (some se.2) true) x
-    pure (exA r)
+    pure (exA (x.formatMatching a spans count))
   | "unfmatch" => do
-    let x ← pAStr; let a ← pOptSArg; let n ← pNat
+    let x ← pAStr; let a ← pOptSArg; let count ← pInt; let n ← pNat
     let spans ← pMany n (do let s ← pInt; let e ← pInt; pure (s, e))
-    let r := spans.foldlM (fun (acc : AStr) (se : Int × Int) => acc.removeRaw a (some se.1) (some se.2)) x
-    pure (exA r)
+    pure (exA (x.unformatMatching a spans count))
   | "tokenize" => do
     let s ← pStr; let allow ← pBool; let acc ← pOptStr
     let p := tokenize s allow acc
